@@ -27,9 +27,10 @@ def gen_content(tag, n):
 class Resp:
     """kind: retry | missing | error | ok"""
 
-    __slots__ = ("kind", "announced", "date", "data", "chunks", "abort", "tag")
+    __slots__ = ("kind", "announced", "date", "data", "chunks", "abort", "tag", "delays")
 
-    def __init__(self, kind, announced=None, date=None, data=b"", chunks=None, abort=False, tag=0):
+    def __init__(self, kind, announced=None, date=None, data=b"", chunks=None, abort=False, tag=0, delays=None):
+        self.delays = delays
         self.kind = kind
         self.announced = announced
         self.date = date
@@ -125,6 +126,8 @@ class ScriptedDownloader(Downloader):
                         pos = 0
                         chunks = r.chunks if r.chunks else ([len(r.data)] if r.data else [])
                         for i, c in enumerate(chunks):
+                            if r.delays:
+                                await asyncio.sleep(r.delays[i])
                             await net.gate(("chunk", url, i))
                             piece = r.data[pos:pos + c]
                             pos += c
